@@ -73,9 +73,9 @@ def _rows_to_events(rows: Iterable) -> List[Event]:
     events = []
     for row in rows:
         eid = row[0]
-        starttime = datetime.fromtimestamp(row[1] / 1000000, timezone.utc)
-        endtime = datetime.fromtimestamp(row[2] / 1000000, timezone.utc)
-        duration = endtime - starttime
+        # exact integer microseconds, like _to_us (no float rounding far from the epoch)
+        starttime = _EPOCH + row[1] * _MICROSECOND
+        duration = (row[2] - row[1]) * _MICROSECOND
         data = json.loads(row[3])
         events.append(Event(id=eid, timestamp=starttime, duration=duration, data=data))
     return events
